@@ -136,10 +136,11 @@ def make_case(rng):
     part = {n: i for i, c in enumerate(comps) for n in c}
     labels = M.label_pool(rng)
     desc, cutcount = {}, {}
+    used_labels, p_reuse = {}, rng.choice([0.0, 0.0, 0.6])
     for e in cut_edges:
         a, b = tuple(e)
-        lab = next(labels)
         o = int(g.edges[a, b]['order'])
+        lab = M.next_label(rng, labels, used_labels, o, p_reuse)
         kind = rng.choice(['$', '><'])
         ka, kb = ('$', '$') if kind == '$' else rng.choice([('>', '<'), ('<', '>')])
         desc.setdefault(a, []).append((ka, lab, o))
